@@ -4,6 +4,7 @@ use crate::report::Ctx;
 use serde_json::Value;
 
 pub mod c14;
+pub mod selftest;
 pub mod c15;
 pub mod c17;
 pub mod c18;
